@@ -310,3 +310,43 @@ V('pd7-prev-output', ['C04'], P,
   "            out.append(defs.TextToken(out_so_far[pos].pos,\n                                out_so_far[pos].txt[-1], pos_fix=True))", 'PD7')
 V('pd7-literal', ['C04'], 'yalafi/handlers.py',
   "        out = [defs.TextToken(pos, '[0]', pos_fix=True),", "        out = [defs.TextToken(1, '[0]', pos_fix=True),", 'PD7')
+
+# ---------------------------------------------------------------- more / rx
+CH = 'yalafi/shell/checks.py'
+V('ix2s-unguarded', ['C07'], 'yalafi/handlers.py',
+  "    if (txt and parser.parms.heading_punct\n                and txt[-1] not in parser.parms.heading_punct):",
+  "    if (parser.parms.heading_punct\n                and txt[-1] not in parser.parms.heading_punct):", 'IX2s')
+V('ix6-zero', ['C07'], 'yalafi/handlers.py',
+  "        if a.arg < 1 or a.arg > nargs:", "        if not 0 <= a.arg <= nargs:", 'IX6')
+V('ix6-neutral', ['C07'], 'yalafi/handlers.py',
+  "        if a.arg < 1 or a.arg > nargs:", "        if not 1 <= a.arg <= nargs:", [])
+V('ml2-label', ['C12'], 'yalafi/parameters.py',
+  "                self.parser_lang_stack.append(\n                (self.parser_lang_settings[self.check_parser_lang(tok.lang)],\n                        tok.lang))",
+  "                self.parser_lang_stack.append(\n                (self.parser_lang_settings[self.check_parser_lang(tok.lang)],\n                        self.check_parser_lang(tok.lang)))", 'ML2')
+V('ml2-pop-empty', ['C12'], U,
+  "            if len(lang_stack) > 1:\n                lang_stack.pop()", "            lang_stack.pop()", 'ML2')
+V('ml2-hard-push', ['C12'], U,
+  "            if t.hard:\n                lang_stack[-1] = t.lang\n            else:\n                lang_stack.append(t.lang)",
+  "            lang_stack.append(t.lang)", 'ML2')
+V('ac1-no-action-args', ['C05'], P,
+  "                    out.append(defs.ActionToken(arg[0].pos))\n                    out += arg\n                    out.append(defs.ActionToken(arg[-1].pos))",
+  "                    out += arg", 'AC1')
+V('ac1-unknown-macro', ['C05'], P,
+  "            return [defs.ActionToken(tok.pos)]\n        return self.expand_arguments", "            return []\n        return self.expand_arguments", 'AC1')
+V('ac2-par-space', ['C05'], S,
+  "return type(tok) in (defs.SpaceToken, defs.CommentToken,", "return type(tok) in (defs.SpaceToken, defs.ParagraphToken, defs.CommentToken,", 'AC2')
+V('ln1-splitlines', ['C16'], T2,
+  "    return list(m.start(0) for m in re.finditer(r'\\n', '\\n' + s))",
+  "    starts = [0]\n    for lin in s.splitlines(True):\n        starts.append(starts[-1] + len(lin))\n    return starts", 'LN1')
+V('rp1-no-escape', ['C13'], U, "t += s + re.escape(lin[i])", "t += s + lin[i]", 'RP1')
+V('rp1-sep-multi', ['C13'], U, "s = r'(?:[ \\t]*\\n[ \\t]*|[ \\t]+)'", "s = r'\\s+'", 'RP1')
+V('rp1-boundary-word', ['C13'], U, "        if t[-1].isalpha():", "        if lin[-1][-1].isalpha():", 'RP1')
+V('rp1-no-skip', ['C13'], U, "        if not t:\n            continue\n", "", 'RP1')
+V('ck1-pattern', ['C20'], CH, "    single = r'\\b[^\\W0-9_]\\b'", "    single = r'\\b[^\\W0-9]\\b'", 'CK1')
+V('ck1-inclusive-end', ['C20'], CH, "            if beg <= m.start(0) < end:", "            if beg <= m.start(0) <= end:", 'CK1')
+V('ck1-neutral', ['C20'], CH, "            if beg <= m.start(0) < end:", "            if m.start(0) >= beg and end > m.start(0):", [])
+V('ck4-lookahead', ['C20'], CH,
+  "    expr = (r'(' + equ + r'(?=\\s*[' + punct + r']?\\s*' + equ + r'))|'",
+  "    expr = (r'(' + equ + r'(?=\\s*' + equ + r'))|'", 'CK4')
+V('ab4-offset', ['C20'], CH, "        'offset': offset - beg + 3,", "        'offset': offset - beg,", 'AB4')
+V('ab4-replace', ['C20'], CH, "replace('\\t', ' ').replace('\\n', ' ')", "replace('\\t', '    ').replace('\\n', ' ')", 'AB4')
